@@ -11,7 +11,7 @@ LEVEL_TEXT = 'Coq theorems about the context variable (set visible only in its o
 LEVEL_NOTE = 'Trusted: Coq kernel; hand-written model Model/Core.v + Model/Prog.v tied to /repo by per-run correspondence on generated logging programs (real control flow, real threads for hand-offs); Python harness. contextvars semantics (per-thread default context) is assumed, exercised by the correspondence.'
 
 FAMILIES = [
-    progs.program_family("programs", oracles.oracle_c04, 120, 2500, deep=dict(depth=8, width=3), **dict(fault=0.2, registry_rate=0.3, p_reenter=0.2, p_raise=0.3, p_try=0.25, p_task=0.15, depth=5, p_reserved=0.2, p_reseed=0.25)),
+    progs.program_family("programs", oracles.oracle_c04, 120, 2500, deep=dict(depth=8, width=3), **dict(fault=0.2, registry_rate=0.3, p_reenter=0.3, p_raise=0.3, p_try=0.25, p_task=0.15, depth=5, p_reserved=0.2, p_reseed=0.25)),
 ]
 
 from lib import oplists
